@@ -262,7 +262,7 @@ def run_disk(case, ctx, res):
             data, exp, desc = made
             eol = EOLS[desc["eol"]].encode()
             pos = rng.choice(["start", "inside", "after", "after+snippet", "unparseable", "start+snippet", "after+snippet@boundary",
-                              "after+snippet@boundary"])
+                              "after+snippet@boundary", "inside-edge", "after-edge"])
             desc = dict(desc, pos=pos)
             filler_line = b"x = 'filler filler filler filler filler filler filler'" + eol
             if pos == "start":
@@ -276,6 +276,25 @@ def run_disk(case, ctx, res):
                 exp = {"lic": set(), "cop": set(), "con": set()}
             elif pos == "after+snippet":
                 blob = b"# SPDX-SnippetBegin" + eol + filler_line * 90 + data + b"# SPDX-SnippetEnd" + eol
+            elif pos in ("inside-edge", "after-edge"):
+                # the tagged text ends exactly with byte 4095 (wholly inside the window) / starts exactly at byte 4096 (wholly after)
+                want = 4096 - len(data) if pos == "inside-edge" else 4096
+                if want < len(eol) + 1:
+                    blob = data
+                    pos = "start"
+                    desc = dict(desc, pos=pos)
+                else:
+                    lead = filler_line * (want // len(filler_line))
+                    rest = want - len(lead)
+                    if 0 < rest < len(eol) + 1:
+                        lead = lead[: -len(filler_line)]
+                        rest = want - len(lead)
+                    if rest:
+                        lead += b"#" + b"q" * (rest - len(eol) - 1) + eol
+                    blob = lead + data
+                    assert len(lead) == want
+                    if pos == "after-edge":
+                        exp = {"lic": set(), "cop": set(), "con": set()}
             elif pos == "after+snippet@boundary":
                 # the marker straddles a typical buffer boundary (multiples of 512 .. 64 KiB): it is in the file all the same
                 block = rng.choice([4096, 4096, 4096, 8192, 1024, 512, 2048, 16384, 65536, 128 * 64])
@@ -314,7 +333,7 @@ def run_disk(case, ctx, res):
             got_c = {x["value"] for x in f["copyrights"]}
             if got_l != exp["lic"] or got_c != exp["cop"]:
                 key = classify(desc, "cop", got_c, exp["cop"], blob) if got_c != exp["cop"] else classify(desc, "lic", got_l, exp["lic"], blob)
-                if desc["pos"] in ("after", "after+snippet", "after+snippet@boundary", "start+snippet", "unparseable") and not key.startswith(("lone-CR", "frame", "mirrored")):
+                if desc["pos"] in ("after", "after+snippet", "after+snippet@boundary", "start+snippet", "unparseable", "inside-edge", "after-edge") and not key.startswith(("lone-CR", "frame", "mirrored")):
                     key = f"window:{desc['pos']}"
                 res.violation(key, f"lint --json reads licences {sorted(got_l)} copyrights {sorted(got_c)}; authored {sorted(exp['lic'])} / {sorted(exp['cop'])} ({desc})",
                               desc=desc, head=blob[:300].decode("utf-8", "replace"))
